@@ -153,12 +153,12 @@ type c20Env struct {
 	skewUs       int
 	barrier      map[string]chan struct{}
 
-	wsClient   c20Client
-	httpClient c20Client
+	wsClient    c20Client
+	httpClient  c20Client
 	slashClient c20Client // ws client configured with the push address spelled with a trailing slash
-	cutClient  c20Client // ws client whose uploads travel through cut
-	cut        *cutProxy
-	closers    []func()
+	cutClient   c20Client // ws client whose uploads travel through cut
+	cut         *cutProxy
+	closers     []func()
 }
 
 // cutProxy is a plain TCP forwarder in front of the upload endpoint. Once armed with n > 0, the next connection
